@@ -199,6 +199,9 @@ func (c *CConf) Coq() string {
 	if c.Kind == "memtls" {
 		kind = "(TTcp true)"
 	}
+	if c.Kind == "inproc" {
+		kind = "TInproc"
+	}
 	if len(c.Builder) > 0 {
 		ops := make([]string, len(c.Builder))
 		for i, o := range c.Builder {
